@@ -44,7 +44,7 @@ class RuleInclude(Leaf):
     def _nullable(self) -> bool:  # type: ignore[override]
         # note: >rule stands for the right hand side of the rule; not
         #   cached, because the rule is linked after construction
-        return self._exp is not None and self._exp.is_nullable()
+        return self._exp is not None and self._exp._nullable
 
     def link(self, grammar: Grammar) -> None:
         super().link(grammar)
